@@ -32,6 +32,9 @@ type c20Scenario struct {
 	// ByEdit: the workspace starts from a root journal without its include
 	// lines; they arrive with an edit of the open root journal
 	ByEdit bool `json:"includes_added_by_edit,omitempty"`
+	// TwoEdits: a second file gets an unsaved edit as well, and both edits arrive
+	// by didChange after the hovered document was analysed
+	TwoEdits bool `json:"two_files_edited_after_the_analysis,omitempty"`
 }
 
 // value alphabet: spelling, exact value, negative
@@ -96,10 +99,18 @@ func (sc c20Scenario) journal(f, variant int) *gmodel.Journal {
 		{Indent: "    ", Account: "assets:cash", Sep: "  ", Amount: c20Amount(r+3, "$"),
 			Cost: &gmodel.Cost{Total: f%2 == 1, Before: 1, After: 1, Amount: *c20Amount(r+4, "EUR")}},
 	})
-	if f%2 == 1 || variant == 1 {
+	extra := 0
+	if f%2 == 1 {
+		extra++
+	}
+	if variant == 1 {
+		// the unsaved edit adds a transaction in every file (odd files have one more already)
+		extra++
+	}
+	for ; extra > 0; extra-- {
 		tx(gmodel.HeaderDesc, "shop", "", nil, []gmodel.Posting{
-			{Indent: "    ", Account: "assets:bank", Sep: "  ", Amount: c20Amount(r+5, "$")},
-			{Indent: "    ", Account: "assets:cash", Sep: "  ", Amount: c20Amount(r+6, "$"), Comment: &gmodel.Comment{Text: " trip:rome", Tags: []gmodel.Tag{{Name: "trip", Value: "rome"}}}},
+			{Indent: "    ", Account: "assets:bank", Sep: "  ", Amount: c20Amount(r+5+extra, "$")},
+			{Indent: "    ", Account: "assets:cash", Sep: "  ", Amount: c20Amount(r+6+extra, "$"), Comment: &gmodel.Comment{Text: " trip:rome", Tags: []gmodel.Tag{{Name: "trip", Value: "rome"}}}},
 		})
 	}
 	return j
@@ -205,6 +216,9 @@ func (sc c20Scenario) features(from int) string {
 		if sc.Discard {
 			f += " (closed again without saving)"
 		}
+		if sc.TwoEdits {
+			f += ", a second file edited too, both after the hovered document was analysed"
+		}
 	}
 	if len(sc.Extra) > 0 {
 		f += ", a file included along two paths"
@@ -302,8 +316,30 @@ func c20Run(c *core.Ctx, dir string, sc c20Scenario, only *c20Case) {
 			open[ef] = false
 			kept = true // the hovered document stays open: it is not analysed again
 		}
+		second := -1
+		var secondCur *gmodel.Journal
+		if sc.TwoEdits {
+			for g := 1; g < sc.N; g++ {
+				if g != sc.EditFile && g != from && second < 0 {
+					second = g
+				}
+			}
+			if second < 0 || sc.EditFile < 1 || sc.EditFile == from {
+				open[from] = wasOpen
+				continue
+			}
+			ef := sc.EditFile
+			secondCur, cur[second] = cur[second], sc.journal(second, 1)
+			s.DidOpen(uriOf(from), cur[from].Render().Text)
+			s.DidOpen(uriOf(ef), disk[ef].Render().Text)
+			s.DidOpen(uriOf(second), disk[second].Render().Text)
+			s.DidChangeFull(uriOf(ef), cur[ef].Render().Text, 2)
+			s.DidChangeFull(uriOf(second), cur[second].Render().Text, 2)
+			kept = true
+			c.Count("hovers after two unsaved edits that arrived after the analysis", 1)
+		}
 		for f := 0; f < sc.N; f++ {
-			if open[f] && !(kept && f == from) && !(mainOpened && f == 0) {
+			if open[f] && !(kept && f == from) && !(mainOpened && f == 0) && !(second >= 0 && f == sc.EditFile) {
 				s.DidOpen(uriOf(f), cur[f].Render().Text)
 			}
 		}
@@ -449,6 +485,9 @@ func c20Run(c *core.Ctx, dir string, sc c20Scenario, only *c20Case) {
 			}
 		}
 		open[from] = wasOpen
+		if second >= 0 {
+			cur[second] = secondCur
+		}
 	}
 }
 
@@ -556,6 +595,11 @@ func checkC20(c *core.Ctx) {
 								dsc := sc
 								dsc.Discard = true
 								c20Run(c, dir, dsc, nil)
+							}
+							if ef >= 1 && n >= 3 && rot < 2 {
+								tsc := sc
+								tsc.TwoEdits = true
+								c20Run(c, dir, tsc, nil)
 							}
 							if sampled < 2 && n == 3 && ef == 1 {
 								sampled++
